@@ -88,6 +88,11 @@ namespace AIToolbox::Factored::Bandit {
     }
 
     template <typename Dist>
+    Action FlattenedModel<Dist>::convertA(size_t a) const {
+        return toFactors(model_.getA(), a);
+    }
+
+    template <typename Dist>
     size_t FlattenedModel<Dist>::getA() const { return A; }
     template <typename Dist>
     const Model<Dist> & FlattenedModel<Dist>::getModel() const { return model_; }
